@@ -153,6 +153,18 @@ def edited_version(rng, decls):
     return d
 
 
+def add_range_and_unit(rng, decls):
+    """One numeric field with a range AND an identifier-like unit: with the paren-less rendering styles this gives
+    "| range(0.0, 9.5) | unit C," (a parameter without parentheses after one that was closed)."""
+    for d in decls:
+        if d["kind"] == "struct":
+            for f in d["fields"]:
+                if f["type"][0] in ("u", "i", "f32", "f64"):
+                    f["unit"] = rng.choice(["C", "V", "rpm", "Nm"])
+                    f["range"] = [0.0, rng.randint(1, 100) + 0.5]
+                    return
+
+
 def make_pool(seed, n):
     pool = {}
     i = 0
@@ -163,6 +175,8 @@ def make_pool(seed, n):
         else:
             decls = gen_pool_schema(rng, i)
         style = rng.randrange(8)
+        if rng.random() < 0.8:
+            add_range_and_unit(rng, decls)
         pool[f"s{len(pool)}"] = S.render(decls, style)
         if i % 2 == 0 and len(pool) < n:
             # followed by its edited version (same names, other definitions)
